@@ -174,6 +174,12 @@ class FunTr:
                 names = ", ".join(e.id for e in tgt.elts)
                 return f"{pad}let '({names}) := {v} in\n" + self.block(rest, env2, ret, ind)
             fail(s, "unsupported assignment target")
+        if isinstance(s, ast.AugAssign) and isinstance(s.target, ast.Name):
+            # `x op= e` is `x = x op e`
+            s2 = ast.copy_location(ast.Assign(targets=[ast.Name(id=s.target.id, ctx=ast.Store())],
+                                              value=ast.BinOp(left=ast.Name(id=s.target.id, ctx=ast.Load()), op=s.op, right=s.value)), s)
+            ast.fix_missing_locations(s2)
+            return self.block([s2] + rest, env, ret, ind)
         if isinstance(s, ast.If):
             conj = self.conjuncts(s.test)
             return self.if_(conj, s.body, s.orelse, rest, env, ret, ind)
@@ -413,6 +419,7 @@ def methodize(fn: ast.FunctionDef, spec: dict) -> tuple[ast.FunctionDef, dict]:
     ftypes = dict((n, t) for n, t in spec.get("fields", []))
     state = list(spec.get("state", []))
     consts = spec.get("consts", {})
+    rename = spec.get("rename", {})      # {attribute: parameter name}, e.g. {"end": "end_"} (Coq keyword)
     for f in state:
         if f not in fields:
             raise Unsupported(f"state attribute {f} is not a declared field")
@@ -426,7 +433,7 @@ def methodize(fn: ast.FunctionDef, spec: dict) -> tuple[ast.FunctionDef, dict]:
                 if node.attr in fields:
                     if not isinstance(node.ctx, ast.Load) and node.attr not in state:
                         fail(node, f"store to self.{node.attr}, which is not declared as state")
-                    return ast.copy_location(ast.Name(id=node.attr, ctx=node.ctx), node)
+                    return ast.copy_location(ast.Name(id=rename.get(node.attr, node.attr), ctx=node.ctx), node)
                 if node.attr in consts and isinstance(node.ctx, ast.Load):
                     return ast.copy_location(ast.Constant(consts[node.attr]), node)
                 fail(node, f"self.{node.attr} is not a declared field")
@@ -460,7 +467,7 @@ def methodize(fn: ast.FunctionDef, spec: dict) -> tuple[ast.FunctionDef, dict]:
     elif returns_none:
         raise Unsupported("a method that returns nothing and has no state has no meaning")
     ast.fix_missing_locations(fn2)
-    params = [[n, parse_type(ast.parse(t, mode="eval").body)] for n, t in spec.get("fields", [])]
+    params = [[rename.get(n, n), parse_type(ast.parse(t, mode="eval").body)] for n, t in spec.get("fields", [])]
     spec2 = dict(spec)
     spec2["params"] = params + list(spec.get("params", []))
     return fn2, spec2
